@@ -256,9 +256,23 @@ Definition maybeRetransmit (now : N) : M (list wire) :=
         ret ws
     end.
 
+(* retransmitAfterAKE; when nothing is retransmitted and MAC keys wait to be revealed (those of a session the exchange
+   has replaced), a heartbeat carries them *)
 Definition retransmitAfterAKE (now : N) : M (list wire) :=
   LET c <- get IN
-  if c_msgState c =? c_encrypted then maybeRetransmit now else ret [].
+  if c_msgState c =? c_encrypted then
+    LET ws <- maybeRetransmit now IN
+    LET c1 <- get IN
+    match ws, oldMACKeys (c_keys c1) with
+    | [], _ :: _ =>
+        LET g <- genDataMsgWithFlag [] c_messageFlagIgnoreUnreadable [] false IN
+        match g with
+        | Ok (w, _) => updateLastSent now ;;; event c_MessageEventLogHeartbeatSent ;;; ret [w]
+        | _ => ret []
+        end
+    | _, _ => ret ws
+    end
+  else ret [].
 
 (* ---------------- AKE (ake.go, auth_state_machine.go) ---------------- *)
 Definition set_ake (f : ake -> ake) : M unit :=
@@ -330,12 +344,14 @@ Definition keyctx_wipeAndKeepRevealKeys (k : keyctx) : keyctx :=
   {| ourKeyID := 0; theirKeyID := 0; ourCurrent := None; ourPrevious := None; theirCurrent := None;
      theirPrevious := None; counters := []; macHistory := []; oldMACKeys := oldMACKeys k |}.
 
-(* akeHasFinished: returns unit; fresh exponent for the new DH pair *)
+(* akeHasFinished: returns unit; fresh exponent for the new DH pair.  The key pairs of a session that the exchange
+   replaces are all retired by it: what waited for disclosure and every receiving MAC key used under them wait in the
+   new key context (the repair of the refresh defect, see known_findings.jsonl) *)
 Definition akeHasFinished (now : N) : M unit :=
   LET c <- get IN
   let a := the_ake c in
   let prev := c_msgState c in
-  modify (fun c => (c <| c_ssid := a_ssid a |> <| c_sentRevealSig := a_sentRevealSig a |> <| c_keys := a_keys a |> <| c_ake := Some ((ake_init <| a_state := a_state a |> <| a_revealSigMsg := a_revealSigMsg a |> <| a_lastStateChange := a_lastStateChange a |>)) |> <| c_lastMsgStateChange := Some now |> <| c_msgState := c_encrypted |>)) ;;;
+  modify (fun c => (c <| c_ssid := a_ssid a |> <| c_sentRevealSig := a_sentRevealSig a |> <| c_keys := set_oldMACKeys (a_keys a) (oldMACKeys (c_keys c) ++ map mu_key (macHistory (c_keys c)) ++ oldMACKeys (a_keys a)) |> <| c_ake := Some ((ake_init <| a_state := a_state a |> <| a_revealSigMsg := a_revealSigMsg a |> <| a_lastStateChange := a_lastStateChange a |>)) |> <| c_lastMsgStateChange := Some now |> <| c_msgState := c_encrypted |>)) ;;;
   LET x <- fresh IN
   modify (fun c => let k := c_keys c in
                    (c <| c_keys := (k <| ourKeyID := ourKeyID k + 1 |> <| ourCurrent := Some x |> <| ourPrevious := ourCurrent k |>) |>)) ;;;
@@ -529,7 +545,7 @@ Fixpoint processTLVs (rnd : list N) (tlvs : list stlv) (x : skey) (acc : list st
       | TDisconnected =>
           LET c <- get IN
           let prev := c_msgState c in
-          modify (fun c => (c <| c_lastMsgStateChange := None |> <| c_msgState := c_finished |> <| c_smp := smp_wiped |> <| c_ake := None |> <| c_keys := keyctx_empty |>)) ;;;
+          modify (fun c => (c <| c_lastMsgStateChange := None |> <| c_msgState := c_finished |> <| c_smp := smp_wiped |> <| c_ake := None |> <| c_keys := keyctx_empty |> <| c_version := 0 |>)) ;;;
           (if prev =? c_encrypted then event (evSec c_GoneInsecure) else ret tt) ;;;
           processTLVs rnd r x acc
       | TExtraKey usage data => event evKey ;;; processTLVs rnd r x acc
